@@ -350,7 +350,7 @@ def l3_case(chk, ctx, c, rng):
         lm, e = call(I.ll_multinom, M, D)
         chk.l3(key + ('multinom',))
         if e is not None or lm is np.ma.masked:
-            _fail(chk, 'll_multinom:raises', 'll_multinom raises/masked: %r' % (e,), inp)
+            _fail(chk, 'll_multinom:raises' + tag, 'll_multinom raises / is masked although the joint set is non-empty, model > 0 and sum(data) > 0: %r' % (e,), inp)
         else:
             lm = float(lm)
             worst = None
